@@ -142,6 +142,79 @@ DecOpts(b, i, end) ==        \* returns [ok, os]
 RECURSIVE StripEol(_)
 StripEol(os) == IF os = <<>> \/ os[1].k = 0 THEN <<>> ELSE <<os[1]>> \o StripEol(Tail(os))
 
+\* ---- Structured TCP options: Multipath TCP (RFC 6824 section 3), option kind 30.
+\* The first data octet carries the subtype in its upper four bits.  The
+\* subtypes whose layout is a list of fields - MP_CAPABLE (3.1), MP_JOIN (3.2),
+\* DSS (3.3) - are decoded into named fields <<[n |-> name, v |-> octets]>>:
+\* "equal header fields" is judged on those, not on the option's octets.  Every
+\* other option (and every layout the RFC does not give) stays kind + data.
+\*   MP_CAPABLE  subtype|version, flags, sender's key (8) [, receiver's key (8)]
+\*   MP_JOIN     subtype|flags(4), address id, then by length: receiver's token (4)
+\*               + sender's random number (4) | truncated HMAC (8) + random
+\*               number (4) | full HMAC (20)
+\*   DSS         subtype|0, flags F m M a A, Data ACK (A: 4 octets, a: 8), and with
+\*               M: data sequence number (4 octets, m: 8), subflow sequence number
+\*               (4), data-level length (2), checksum (2).  The widths of the Data
+\*               ACK and of the data sequence number are independent.
+Fld(n, v) == [n |-> n, v |-> v]
+BitOf(x, i) == (x \div (2 ^ i)) % 2
+DssAckLen(fl) == IF BitOf(fl, 0) = 0 THEN 0 ELSE IF BitOf(fl, 1) = 1 THEN 8 ELSE 4
+DssDsnLen(fl) == IF BitOf(fl, 2) = 0 THEN 0 ELSE IF BitOf(fl, 3) = 1 THEN 8 ELSE 4
+DssLen(fl) == 4 + DssAckLen(fl) + DssDsnLen(fl) + (IF BitOf(fl, 2) = 1 THEN 8 ELSE 0)
+\* the width bits mean something only next to their presence bit
+DssFlagsOK(fl) == (BitOf(fl, 1) = 1 => BitOf(fl, 0) = 1) /\ (BitOf(fl, 3) = 1 => BitOf(fl, 2) = 1)
+\* a 32- or 64-bit number in the view: always eight octets (a parser that reads
+\* the wrong width yields another number)
+Wide(v) == Zeros(8 - Len(v)) \o v
+Narrow(v, w) == SubSeq(v, Len(v) - w + 1, Len(v))
+MpFields(d) ==
+  IF Len(d) < 2 THEN <<>>
+  ELSE LET st == d[1] \div 16
+           lo == d[1] % 16
+           n  == Len(d) + 2
+       IN CASE st = 0 /\ n \in {12, 20} ->
+                 <<Fld("subtype", <<0>>), Fld("version", <<lo>>), Fld("flags", <<d[2]>>), Fld("skey", SubSeq(d, 3, 10))>>
+                 \o (IF n = 20 THEN <<Fld("rkey", SubSeq(d, 11, 18))>> ELSE <<>>)
+            [] st = 1 /\ n = 12 ->
+                 <<Fld("subtype", <<1>>), Fld("flags", <<lo>>), Fld("addr", <<d[2]>>),
+                   Fld("rtoken", SubSeq(d, 3, 6)), Fld("srand", SubSeq(d, 7, 10))>>
+            [] st = 1 /\ n = 16 ->
+                 <<Fld("subtype", <<1>>), Fld("flags", <<lo>>), Fld("addr", <<d[2]>>),
+                   Fld("shmac", SubSeq(d, 3, 10)), Fld("srand", SubSeq(d, 11, 14))>>
+            [] st = 1 /\ n = 24 ->
+                 <<Fld("subtype", <<1>>), Fld("flags", <<lo>>), Fld("addr", <<d[2]>>), Fld("shmac", SubSeq(d, 3, 22))>>
+            [] st = 2 /\ lo = 0 /\ DssFlagsOK(d[2]) /\ n = DssLen(d[2]) ->
+                 LET fl == d[2]
+                     al == DssAckLen(fl)
+                     dl == DssDsnLen(fl)
+                     q  == 3 + al + dl
+                 IN <<Fld("subtype", <<2>>), Fld("flags", <<fl>>)>>
+                    \o (IF al > 0 THEN <<Fld("ack", Wide(SubSeq(d, 3, 2 + al)))>> ELSE <<>>)
+                    \o (IF dl > 0 THEN <<Fld("dsn", Wide(SubSeq(d, 3 + al, 2 + al + dl))), Fld("seq", SubSeq(d, q, q + 3)),
+                                         Fld("length", SubSeq(d, q + 4, q + 5)), Fld("csum", SubSeq(d, q + 6, q + 7))>>
+                        ELSE <<>>)
+            [] OTHER -> <<>>
+\* the option data a sender emits for a list of fields (the constructive
+\* direction; the corpus builds its options with it and TLC checks that
+\* MpFields inverts it on every option it decodes: StructuredOptionsOK)
+HasF(f, n) == \E i \in 1..Len(f) : f[i].n = n
+FV(f, n) == f[CHOOSE i \in 1..Len(f) : f[i].n = n].v
+FO(f, n) == IF HasF(f, n) THEN FV(f, n) ELSE <<>>
+MpEnc(f) ==
+  LET st == FV(f, "subtype")[1]
+  IN CASE st = 0 -> <<FV(f, "version")[1], FV(f, "flags")[1]>> \o FV(f, "skey") \o FO(f, "rkey")
+       [] st = 1 -> <<16 + FV(f, "flags")[1], FV(f, "addr")[1]>> \o FO(f, "rtoken") \o FO(f, "shmac") \o FO(f, "srand")
+       [] OTHER -> LET fl == FV(f, "flags")[1]
+                   IN <<32, fl>> \o (IF HasF(f, "ack") THEN Narrow(FV(f, "ack"), DssAckLen(fl)) ELSE <<>>)
+                      \o (IF HasF(f, "dsn") THEN Narrow(FV(f, "dsn"), DssDsnLen(fl)) \o FV(f, "seq") \o FV(f, "length") \o FV(f, "csum")
+                          ELSE <<>>)
+\* an option as a caller sees it: its fields where the layout is known (the
+\* data octets are then not compared a second time), kind + data otherwise
+OptView(o) == IF "f" \in DOMAIN o THEN o
+              ELSE LET f == IF o.k = 30 THEN MpFields(o.d) ELSE <<>>
+                   IN [k |-> o.k, d |-> IF Len(f) = 0 THEN o.d ELSE <<>>, f |-> f]
+OptsView(os) == [i \in 1..Len(os) |-> OptView(os[i])]
+
 \* LLDP TLVs (802.1AB 9.4): 7-bit type, 9-bit length, value.  [t |-> type, d |-> value]
 EncTlv(x) == PackBits(<<<<x.t, 7>>, <<Len(x.d), 9>>>>) \o x.d
 TlvBytes(ts) == Concat([i \in 1..Len(ts) |-> EncTlv(ts[i])])
@@ -637,9 +710,9 @@ ParseStack(b) == DecEth(b)
 
 \* opaque payloads as literal bytes
 Expand(s) == [i \in 1..Len(s) |-> IF s[i].p = "raw" THEN [p |-> "rawb", data |-> RawBytes(s[i])] ELSE s[i]]
-\* TCP option lists are compared up to the end-of-list option
+\* TCP option lists are compared up to the end-of-list option, Multipath TCP options field by field (OptView)
 \* DHCP pad options carry no information (RFC 2132 3.1)
-NormLayer(L) == IF L.p = "tcp" THEN [L EXCEPT !.opts = StripEol(L.opts)]
+NormLayer(L) == IF L.p = "tcp" THEN [L EXCEPT !.opts = OptsView(StripEol(L.opts))]
                 ELSE IF L.p = "dhcp" THEN [L EXCEPT !.opts = StripPads(L.opts)]
                 ELSE IF L.p = "dns" THEN [L EXCEPT !.cmp = 0] ELSE L       \* whether names were compressed is not a field
 \* ---- messages whose serialisation is free-form.  When different names of a DNS
